@@ -424,6 +424,8 @@ func runC18(w *eng.W) {
 		{"toFloat('12.5')", "12.5"}, {"toFloat('-3')", "-3"}, {"toFloat('0')", "0"}, {"toFloat('1e3')", "1000"}, {"toFloat('00012')", "12"},
 		{"toFloat('2.50')", "2.5"}, {"toFloat('123456789012345678901234567890')", "123456789012345678901234567890"}, {"toFloat('0.000001')", "0.000001"},
 		{"toFloat('1.5e-7')", "1.5e-7"}, {"toFloat('-0.75')", "-0.75"},
+		{"toInt('1.5e3')", "1500"}, {"toInt('2.5E-1')", "0"}, {"toInt('-1.25e2')", "-125"}, {"toInt('42.9')", "42"}, {"toInt('-0.5')", "0"}, {"toInt('7')", "7"}, {"toInt('1e3')", "1000"}, {"toInt('12.5e-1')", "1"},
+		{"toInt(toFloat('1.5e3')) === toInt('1.5e3') ? 1 : 0", "1"},
 		{"toFloat('abc')", "NaN"}, {"toFloat('')", "NaN"}, {"toFloat('1x')", "NaN"}, {"toFloat('1 2')", "NaN"}, {"toFloat('--1')", "NaN"}, {"toFloat('twelve')", "NaN"}, {"toFloat('1,5')", "NaN"}, {"toFloat('$5')", "NaN"},
 		{"finite(1/0)", "0"}, {"finite(-1/0)", "0"}, {"finite(0/0)", "0"}, {"finite('abc')", "0"}, {"finite(null)", "0"}, {"finite(true)", "0"}, {"finite([1])", "0"}, {"finite('')", "0"},
 		{"finite(2.5)", "2.5"}, {"finite(1/4)", "0.25"}, {"finite(-7)", "-7"}, {"finite(0)", "0"},
